@@ -82,6 +82,30 @@ checks = {
    ref="DESIGN.md §5 C20"),
 }
 
+# additions made after the second round of seeded changes (DESIGN.md section 16)
+extra = {
+ "C01": " Added later: a sixth shape with the same Go field name and type in two value-embedded structs told apart by hseq tags (both derived in one run), and a model of sync.Map so that memoising derivations are executed rather than rejected.",
+ "C02": " Added later: an embedded pointer as the FIRST field of the container (offset 0).",
+ "C03": " Added later: a diamond shape (one struct type embedded through two different paths).",
+ "C04": " BiMapS/B/I/F are derived by name for the SECOND field of their type.",
+ "C06": " Added later: Emit over a Try function failing on an uninterpreted set, with a bounded-liveness assertion standing in for termination (once cancelled and with both consumers stopped, at most cap(out)+cap(errors)+1 further applications).",
+ "C07": " Added later: fail-fast stages fed by a producer that never closes its channel (the stage must close at the failure, not when the input ends).",
+ "C08": " Added later: bursts of 2 (thorough: 3) sends completed into the buffer before the pump first runs, cancel at any step.",
+ "C09": " ForEach is also run with Try/Lift of a function failing on an uninterpreted set (the outcome is ignored as in pipe.ForEach: every element still applied once).",
+ "C12": " One configuration calls Join with a spread slice that the caller overwrites right after the call.",
+ "C13": " Includes ops=2 with an interval that ops does not divide.",
+ "C14": " Added later: the depth-3 trees along the left spine (right operand of every Plus a leaf, leaves of 0..1 elements, Join(Join(..)) excluded).",
+ "C17": " monoid.From is also applied to already-built monoids; ord.String implementations that iterate over runes are executed with exact symbolic UTF-8 decoding.",
+}
+BMC_EXTRA = (" Goroutines started by goroutines, channels made inside goroutines and goroutine-local non-scalar cells are supported within stated model limits "
+             "(one live instance per go statement unless raised, one execution per make(chan) site); exceeding a limit makes the job INCONCLUSIVE, never a violation. "
+             "Counterexamples are minimised (shortest run, punctual wake-ups) before the native replay.")
+for k, v in extra.items():
+    checks[k]["text"] += v
+for k, c in checks.items():
+    if c.get("note") is BMC_NOTE:
+        c["note"] = BMC_NOTE + BMC_EXTRA
+
 not_built = {}
 props = [json.loads(l) for l in open("/verif/properties.jsonl")]
 m = {
